@@ -25,7 +25,7 @@ RULE = ("case = (deck, plan): the reflective reader calls every public property 
         "the rotation/reversal of property order per depth, the slides visited, 1-3 repetitions, 0-3 intermediate "
         "saves and an optional save before the first read. Decks: corpus, a generated deck with every shape kind and "
         "partial-xfrm placeholders, and variants of four corpus decks whose slide parts are rotated / numbered with "
-        "gaps. Non-trivial: deck has a chart, table, group or notes slide, or renamed slide parts, or the history has "
+        "gaps / whose last slide lost its p:sldId but not its relationship. Non-trivial: deck has a chart, table, group or notes slide, or renamed slide parts, or the history has "
         "an intermediate or initial save. "
         "Distinct by hash of (deck, plan).")
 ASSUMPTIONS = [
@@ -316,11 +316,29 @@ def deck_bytes(deck):
         from checks.c02 import renamed
         base, how = deck.split("|")
         data = open(os.path.join(REPO, base), "rb").read()
-        data = renamed(data, how) or data
+        if how == "orphan":
+            data = orphaned_last_slide(data)
+        else:
+            data = renamed(data, how) or data
     else:
         data = open(os.path.join(REPO, deck), "rb").read()
     _deck_cache[deck] = data
     return data
+
+
+def orphaned_last_slide(data):
+    """variant of a deck whose last slide lost its p:sldId only (the usual delete-a-slide recipe): the slide part is
+    still related to the presentation part, so it is still a part of the package"""
+    pkg = O.Pkg.read(data)
+    pp = [r.resolved for r in pkg.rels("/") if r.type.endswith("/officeDocument")][0]
+    root = etree.fromstring(pkg.members[pp])
+    ns = {"p": "http://schemas.openxmlformats.org/presentationml/2006/main"}
+    ids = root.findall("p:sldIdLst/p:sldId", ns)
+    if len(ids) < 2:
+        return data
+    ids[-1].getparent().remove(ids[-1])
+    pkg.set_member(pp, etree.tostring(root, xml_declaration=True, encoding="UTF-8", standalone=True))
+    return pkg.to_bytes()
 
 
 def blame(deck, plan):
@@ -447,7 +465,7 @@ def _run_case(case, rec=None):
         rich = any(x in names for x in ("/charts/", "/notesSlides/")) or b"<a:tbl" in b"".join(
             v for k, v in ref.members.items() if k.startswith("/ppt/slides/slide")) or b"<p:grpSp>" in b"".join(
             v for k, v in ref.members.items() if k.startswith("/ppt/slides/slide"))
-        rec.note(case, rich or inter > 0 or "|" in deck or bool(plan.get("save_first")), classes=["deck:" + ("generated" if deck == "generated" else "renamed-slides" if "|" in deck else "corpus"),
+        rec.note(case, rich or inter > 0 or "|" in deck or bool(plan.get("save_first")), classes=["deck:" + ("generated" if deck == "generated" else "orphan-slide" if deck.endswith("|orphan") else "renamed-slides" if "|" in deck else "corpus"),
                                                    "intermediate-saves:%d" % inter, "reps:%d" % reps])
         rec.extra["property_reads"] = rec.extra.get("property_reads", 0) + calls
         rec.extra.setdefault("classes_traversed", [])
@@ -475,7 +493,7 @@ def jobs(tier):
     # slide parts out of presentation order / numbered with gaps (the slide collection renames them on access)
     multi = ["features/steps/test_files/sld-slides.pptx", "features/steps/test_files/shp-shapes.pptx",
              "features/steps/test_files/cht-charts.pptx", "tests/test_files/test.pptx"]
-    decks += ["%s|%s" % (d, how) for d in multi for how in ("rotate", "gap")]
+    decks += ["%s|%s" % (d, how) for d in multi for how in ("rotate", "gap", "orphan")]
     n = 40 if tier == "thorough" else 14
     return [{"decks": decks[i::16], "n": n} for i in range(16)]
 
